@@ -43,6 +43,8 @@ FAMILIES = {
     "empty_star": ("a*", lambda n: "a" * min(n, 40) + "b" + "a" * 3, False),
     "empty_group_star": ("(a*)*", lambda n: "ab" * min(n, 20), False),
     "empty_anchor": ("$|^", lambda n: "a\nb" * min(n, 10), False),
+    "caret_only": ("^", lambda n: "a\nb\n" * min(n, 10), False),
+    "caret_dollar_ml": ("^b$|^$", lambda n: "a\nb\n" * min(n, 10), False),
     "empty_boundary": ("\\b", lambda n: "ab cd " * min(n, 8), False),
     "empty_lookahead": ("(?=a)", lambda n: "a" * min(n, 30), True),
     # many short matcher activations: a lookbehind retried from every earlier position at every
@@ -65,6 +67,10 @@ APIS = {
     "replaceAll": "S.replaceAll(%(RG)s, 'x')",
     "split": "S.split(%(R)s)",
     "split_limit": "S.split(%(R)s, 3)",
+    # a RegExp reused on a shorter subject: lastIndex points beyond the end (or is negative / fractional)
+    "lastindex_beyond_test": "(function(){ var r = %(RY)s; r.lastIndex = S.length + 3; return [r.test('ab'), r.test(''), r.lastIndex]; })()",
+    "lastindex_beyond_exec": "(function(){ var r = %(RY)s; r.lastIndex = S.length + 7; var m = r.exec('x\\ny'); return [m === null, r.lastIndex]; })()",
+    "lastindex_odd_values": "(function(){ var r = %(RY)s, out = []; var vs = [-1, 2.5, 1e9, S.length, S.length + 1]; for (var q = 0; q < vs.length; q++) { r.lastIndex = vs[q]; out.push(r.test(S)); } return out.length; })()",
     "split_limit_g": "S.split(%(RG)s, 1)",
     "replace_dollar": "S.replace(%(RG)s, '[$&$1]')",
     "match_str": "S.match(%(P)s)",
@@ -86,7 +92,9 @@ def render(cell):
         R, RG = "rxs", "rxsg"
     else:
         R, RG = "new RegExp(%s,'%s')" % (pj, fl), "new RegExp(%s,'g%s')" % (pj, fl)
-    call = APIS[cell["api"]] % {"R": R, "RG": RG, "P": pj}
+    fy = "".join(sorted(set(fl + "y")))
+    RY = ("/%s/%s" % (pat, fy)) if cell["build"] != "ctor" else "new RegExp(%s,'%s')" % (pj, fy)
+    call = APIS[cell["api"]] % {"R": R, "RG": RG, "P": pj, "RY": RY}
     wrap = cell.get("wrap", "none")
     body = "var r0 = %s;" % call
     if wrap == "try":
